@@ -1533,6 +1533,8 @@ def evalf(r, env, _memo=None):
                     v = complex(int(re[0]))
                 elif n == 'nearest':
                     v = complex(round(re[0]))
+                elif n == 'rnd':
+                    v = complex(round(re[0], int(round(re[1]))))
                 elif n == 'floordiv':
                     v = complex(re[0] // re[1])
                 elif n == 'mod':
@@ -1582,7 +1584,7 @@ def evalf(r, env, _memo=None):
 def _shared_opaque(a, b):
     """ids of opaque generators (call atoms, items of call results, decoded bytes, ...) that occur in BOTH forms: for a witness they can
     take any value, the same on both sides"""
-    known = {'def', 'sqrt', 'atan', 'atan2', 'asin', 'acos', 'log', 'abs', 'exp', 'pow', 'int', 'nearest', 'floordiv', 'mod', 'lt', 'le', 'gt', 'ge', 'eq', 'ne',
+    known = {'def', 'sqrt', 'atan', 'atan2', 'asin', 'acos', 'log', 'abs', 'exp', 'pow', 'int', 'nearest', 'rnd', 'floordiv', 'mod', 'lt', 'le', 'gt', 'ge', 'eq', 'ne',
              'and', 'or', 'not', 'truthy', 'ite'}
 
     def collect(r):
@@ -1612,6 +1614,34 @@ def _shared_opaque(a, b):
             if deps & lonely_bytes:
                 free.add(k)
     return free
+
+
+def max_rel_diff(a, b, ranges, trials=8):
+    """largest |a - b| / max(|a|, |b|) and largest |a - b| over deterministic sample points, with the point of the former; None when
+    nothing could be evaluated"""
+    ids = sorted(set(a.atoms(deep=True)) | set(b.atoms(deep=True)))
+    syms = [TABLE.atoms[k] for k in ids if TABLE.atoms[k].kind == 'sym' and TABLE.atoms[k].name != 'pi']
+    if any(s.name not in ranges for s in syms):
+        return None
+    shared = sorted(_shared_opaque(a, b))
+    best = None
+    for t in range(trials):
+        env = {}
+        for j, s in enumerate(syms):
+            lo, hi = ranges[s.name]
+            frac = ((t + 1) * 0.6180339887498949 + (j + 1) * 0.7548776662466927) % 1.0
+            env[s.id] = lo + (hi - lo) * frac
+        for j, k in enumerate(shared):
+            env[k] = 0.3 + 0.6 * (((t + 1) * 0.5545497 + (j + 1) * 0.3819660) % 1.0)
+        try:
+            va, vb = evalf(a, env), evalf(b, env)
+        except (NotEvaluable, ZeroDivisionError, OverflowError, ValueError):
+            continue
+        d = abs(va - vb)
+        r = d / max(abs(va), abs(vb), 1e-300)
+        if best is None or r > best[0]:
+            best = (r, d, dict((s.name, env[s.id]) for s in syms), va, vb)
+    return best
 
 
 def numeric_witness(a, b, ranges, trials=6, rel=1e-8):
